@@ -281,7 +281,7 @@ func ruleDockerMatch(r *Run) {
 	for _, ex := range loop.earlyExits() {
 		if !factHoldsOnEdge(ex[0], ex[1], matchCall, false) {
 			good = false
-			om.Fail(r.pos(ex[0].Instrs[len(ex[0].Instrs)-1].Pos()), "the matcher loop is left early on a path where the matcher accepted")
+			om.Fail(r.pos(termPos(ex[0])), "the matcher loop is left early on a path where the matcher accepted")
 		}
 	}
 	for _, ret := range returnsOf(mf) {
